@@ -1,5 +1,6 @@
 import CpModel.PipelineProto
 import CpModel.WsgiBoundaryProto
+import CpModel.PipelineLazy
 /-!
   Driver for C01 (exactly one well-formed response; errors contained).  Lines starting with `B` / `R` are
   plans of the WSGI-boundary models (`CpModel/WsgiBoundaryProto.lean`: body iterators that misbehave,
@@ -10,6 +11,7 @@ def step (line : String) : String :=
   match CpModel.Proto.fields line with
   | "B" :: _ => CpModel.WsgiBoundaryProto.step line
   | "R" :: _ => CpModel.WsgiBoundaryProto.step line
+  | "L" :: rest => CpModel.PipelineLazy.driverLine rest      -- lazy assembly of the WSGI pipeline, two threads
   | toks =>
     -- `genx=<page>:<class>,…` (C01 fault plans): the class of what a *streamed* generator raises mid-stream; the
     -- model has one answer for every `Exception` subclass there, so the token is dropped; `xcls=<class>`: the builtin
